@@ -60,7 +60,7 @@ def run(workload, desc, replay_case=None):
             da.rcParams.update(rc0)
         res["evaluations"] += 1
         if klass is not None:
-            ks = klass if isinstance(klass, (list, tuple, set)) else [klass]
+            ks = klass if isinstance(klass, (list, set)) else [klass]
             for k in ks:
                 k = str(k)
                 if k not in classes:
